@@ -43,7 +43,9 @@ def correspondence(ctx):
         cases.append(f'rules|um|dir|{hexs(s_)}')
     for s_ in structured_strings(ctx, 800 if ctx.tier == 'quick' else 10000, ['filler_ascii', 'filler_2', 'rtl', 'rtl', 'rtl', 'ltrish', 'ltrish', 'marks', 'bad']):
         cases.append(f'rules|um|dir|{hexs(s_)}')
-    cases += fuzz_cases(ctx, {5})      # coverage-guided search of the tree under check (only when the source changed / thorough)
+    for s_ in product_strings(ctx, tails=[0x5D0, 0x627, 0x661, 0x31, 0x2D, 0x5B0, 0x61, 0x670], heads=[[], [0x5D0], [0x61]], fillers=(0x61, 0x5D0, 0x5B0, 0x31), extra_long=False):
+        cases.append(f'rules|um|dir|{hexs(s_)}')
+    cases += fuzz_cases(ctx, {12})      # coverage-guided search of the tree under check (only when the source changed / thorough)
     res = run_cases(cases, ctx.work)
     listed = {k.get('id') for k in ctx.known}
     inv = {v: k for k, v in BIDI.items()}
